@@ -13,6 +13,7 @@
 #include "common/viewreg.hpp"
 
 #include <fstream>
+#include <unistd.h>
 #include <numeric>
 #include <type_traits>
 
@@ -279,6 +280,8 @@ int main(int argc, char** argv) {
 	long nprog = std::strtol(argv[2], nullptr, 10);
 	fprog = std::fopen(argv[4], "w"); fans = std::fopen(argv[5], "w");
 	if(!fprog || !fans) { std::perror("fopen"); return 2; }
+	// watchdog: a library change that makes a loop run away must end as a crash (reported, shrunk), not as a hang
+	alarm((argc >= 8 && std::string(argv[6]) == "--replay") ? 20 : static_cast<unsigned>(60 + nprog / 200));
 	g_store.assign(static_cast<std::size_t>(NCELL), 0); g_mem = g_store.data();
 	reset_memory();
 	if(argc >= 8 && std::string(argv[6]) == "--replay") run_replay(argv[7]); else run_generated(seed, nprog);
